@@ -1221,7 +1221,39 @@ func ruleC17NoSecondDecoding(c *Ctx) {
 			}
 		})
 	}
+	// the same for the code that hands the fragment to the walker: url.URL.Fragment is the decoded form
+	res := c.Closure(rule, "RES")
+	nres := 0
+	if res != nil {
+		for _, fn := range res.Sorted() {
+			if !c.P.InPkg(fn) {
+				continue
+			}
+			nres++
+			core.EachInstr(fn, func(i ssa.Instruction) {
+				call, ok := i.(ssa.CallInstruction)
+				if !ok {
+					return
+				}
+				key := core.CalleeKey(call.Common())
+				if key != "net/url.PathUnescape" && key != "net/url.QueryUnescape" || len(call.Common().Args) == 0 {
+					return
+				}
+				fromFragment := false
+				for _, src := range append(traceSources(call.Common().Args[0]), call.Common().Args[0]) {
+					if c.mentionsNamedField(src, "Fragment", 6) {
+						fromFragment = true
+					}
+				}
+				if fromFragment {
+					bad++
+					c.R.Bad(rule, core.FuncName(fn)+":"+key+"(URL.Fragment)", c.pos(i), "url.URL.Fragment is already percent-decoded; decoding it again makes \"#/$defs/50%2525\" select the key \"50%\" instead of \"50%25\"")
+				}
+			})
+		}
+	}
 	if bad == 0 {
+		c.R.OK(rule, "resolver:fragment-decoded-once", "", fmt.Sprintf("no unescape call applied to url.URL.Fragment in the %d package functions of the resolver's closure", nres))
 		c.R.OK(rule, "pointer-code:no-url-decoding", "", fmt.Sprintf("no URL decoding in the %d functions of the pointer walker's closure", len(cl.Set)))
 	}
 }
